@@ -673,6 +673,15 @@ func runC13(c *core.Ctx) {
 			q := q
 			name := "GetValueAtQuantile(" + fmtF(q) + ") on an empty sketch"
 			expect(name, call(name, func() error { _, err := k.GetValueAtQuantile(q); return err }))
+			// the batch query is an entry point of its own
+			name = "GetValuesAtQuantiles([" + fmtF(q) + ",0.25]) on an empty sketch"
+			expect(name, call(name, func() error {
+				vals, err := k.GetValuesAtQuantiles([]float64{q, 0.25})
+				if err != nil && vals != nil {
+					return nil // an error must come without values
+				}
+				return err
+			}))
 		}
 		if !weightless {
 			expect("GetMinValue on an empty sketch", call("GetMinValue", func() error { _, err := k.GetMinValue(); return err }))
